@@ -393,6 +393,16 @@ class World:
     def op_REPLACE(self, op):
         parent = self._need(op['p'])
         i = op['i']
+        if 'raw' in op:
+            # fault: the replacement is not an element at all (None, a string, a number)
+            if i >= len(parent.children):
+                raise _Skip('no child %d' % i)
+            old = parent.children[i]
+            raw = op['raw']
+            r = self.call(lambda: parent.el.replace_child(old.el, raw))
+            if r[0] == 'ok':
+                return ('ok', 'accepted-non-element')
+            return ('exc', r[1], 'replace')
         r = self.call(lambda: self.build(op['c']))
         if r[0] != 'ok':
             return ('exc', r[1], 'construct')
@@ -494,7 +504,7 @@ class World:
                 return ('ok', None)
             for i, c in enumerate(node.children):
                 if c.el is v:
-                    return ('ok', ['child', i])
+                    return ('ok', ['child', i, jsonable(getattr(v, 'value_', None))])
             return ('ok', ['other', type(v).__name__])
         return ('exc', r[1], 'dot_get')
 
@@ -584,7 +594,10 @@ class World:
         return ('exc', r[1], 'read')
 
     def op_DEEPCOPY(self, op):
-        node = self._need(op['p'])
+        if 'reuse' in op:
+            node = self._detached(op['reuse'], op.get('reuse_doc'))
+        else:
+            node = self._need(op['p'])
         if op['doc'] in self.docs:
             raise _Skip('doc exists')
         r = self.call(lambda: _copy.deepcopy(node.el))
